@@ -6,6 +6,7 @@ import (
 	"errors"
 	"io"
 	"net/url"
+	"os"
 	"sort"
 	"strings"
 
@@ -20,6 +21,7 @@ type MemStore struct {
 	files      *map[string][]byte
 	prefix     string
 	failWrites *int // number of coming WriteObject calls that consume their reader and then fail (transient fault)
+	disk       dstore.Store // native replay of URL-addressed stores: a local directory store
 }
 
 func NewMemStore() *MemStore {
@@ -38,15 +40,42 @@ type memReader struct{ *bytes.Reader }
 
 func (memReader) Close() error { return nil }
 
-func (m *MemStore) Put(name string, content []byte) { (*m.files)[m.prefix+name] = content }
+func (m *MemStore) Put(name string, content []byte) {
+	if m.disk != nil {
+		if err := m.disk.WriteObject(context.Background(), name, bytes.NewReader(content)); err != nil {
+			panic(err)
+		}
+		return
+	}
+	(*m.files)[m.prefix+name] = content
+}
 
 func (m *MemStore) Get(name string) ([]byte, bool) {
+	if m.disk != nil {
+		r, err := m.disk.OpenObject(context.Background(), name)
+		if err != nil {
+			return nil, false
+		}
+		defer r.Close()
+		b, err := io.ReadAll(r)
+		if err != nil {
+			panic(err)
+		}
+		return b, true
+	}
 	b, ok := (*m.files)[m.prefix+name]
 	return b, ok
 }
 
 func (m *MemStore) Names() []string {
 	var out []string
+	if m.disk != nil {
+		if err := m.disk.Walk(context.Background(), "", func(n string) error { out = append(out, n); return nil }); err != nil {
+			panic(err)
+		}
+		sort.Strings(out)
+		return out
+	}
 	for k := range *m.files {
 		if strings.HasPrefix(k, m.prefix) {
 			out = append(out, k[len(m.prefix):])
@@ -128,3 +157,70 @@ func (m *MemStore) BaseURL() *url.URL              { return &url.URL{Scheme: "me
 func (m *MemStore) ObjectPath(base string) string { return m.prefix + base }
 func (m *MemStore) ObjectURL(base string) string  { return "mem://" + m.prefix + base }
 func (m *MemStore) SetMeter(meter dstore.Meter)    {}
+
+func (m *MemStore) Clone(ctx context.Context, opts ...dstore.Option) (dstore.Store, error) {
+	return &MemStore{files: m.files, prefix: m.prefix, failWrites: m.failWrites}, nil
+}
+
+// StoreByURL is what the checked code gets from dstore.NewStore / NewDBinStore (the engine
+// redirects both constructors to the hooks below): the harness's store for that URL.
+var StoreByURL = map[string]*MemStore{}
+
+func HookNewStore(baseURL, extension, compressionType string, overwrite bool, opts ...dstore.Option) (dstore.Store, error) {
+	if s, ok := StoreByURL[baseURL]; ok {
+		return s, nil
+	}
+	return nil, errors.New("mem store: no store registered for " + baseURL)
+}
+
+func HookNewDBinStore(baseURL string, opts ...dstore.Option) (dstore.Store, error) {
+	return HookNewStore(baseURL, "dbin.zst", "zstd", false, opts...)
+}
+
+// Native reports whether the harness runs as an ordinary Go test (replay of a solver model
+// against the real build); the engine intercepts it and answers false.
+func Native() bool { return true }
+
+var tempDirs []string
+
+// NewURLStore returns an empty object store together with the URL under which the checked
+// code's own dstore.NewStore(url, "zst", "zstd", ...) opens it. Under the engine that is an
+// in-memory store handed out by the redirected constructor; natively it is a directory
+// store under the system temp directory (RemoveURLStores deletes them).
+func NewURLStore(name string) (*MemStore, string) {
+	if !Native() {
+		m := NewMemStore()
+		StoreByURL["mem://"+name] = m
+		return m, "mem://" + name
+	}
+	dir, err := os.MkdirTemp("", "verif-"+name+"-")
+	if err != nil {
+		panic(err)
+	}
+	tempDirs = append(tempDirs, dir)
+	d, err := dstore.NewStore("file://"+dir, "zst", "zstd", true)
+	if err != nil {
+		panic(err)
+	}
+	m := NewMemStore()
+	m.disk = d
+	return m, "file://" + dir
+}
+
+func RemoveURLStores() {
+	for _, d := range tempDirs {
+		os.RemoveAll(d)
+	}
+	tempDirs = nil
+}
+
+// Delete removes a file (harness side: eviction).
+func (m *MemStore) Delete(name string) {
+	if m.disk != nil {
+		if err := m.disk.DeleteObject(context.Background(), name); err != nil {
+			panic(err)
+		}
+		return
+	}
+	delete(*m.files, m.prefix+name)
+}
